@@ -335,6 +335,19 @@ func ackAlts(env *c16Env, set func(m proto.Message, v []string)) []alt {
 	}
 }
 
+// optionalAckAlts: for requests in which the id list is optional, the valid base
+// is "no ids"; every other variant is a deviation.
+func optionalAckAlts(env *c16Env, set func(m proto.Message, v []string)) []alt {
+	a := ackAlts(env, set)
+	out := []alt{{"none", func(m proto.Message) { set(m, nil) }}}
+	for _, x := range a {
+		if x.label != "empty-list" {
+			out = append(out, x)
+		}
+	}
+	return out
+}
+
 func maskAlts(known []string, set func(m proto.Message, v *fieldmaskpb.FieldMask)) []alt {
 	out := []alt{{"all-known", func(m proto.Message) { set(m, &fieldmaskpb.FieldMask{Paths: known}) }}}
 	for _, k := range known {
@@ -750,22 +763,26 @@ func c16Specs(env *c16Env) []rpcSpec {
 						r.MaxOutstandingMessages, r.MaxOutstandingBytes = 2, 1000
 					}},
 				}},
-				{"acks", ackAlts(env, func(m proto.Message, v []string) { m.(*pubsubpb.StreamingPullRequest).AckIds = v })[3:]},
-				{"modack", []alt{
-					{"none", func(m proto.Message) {}},
-					{"len-mismatch", func(m proto.Message) {
-						r := m.(*pubsubpb.StreamingPullRequest)
-						r.ModifyDeadlineAckIds, r.ModifyDeadlineSeconds = []string{env.liveAck}, nil
-					}},
-					{"garbage-id", func(m proto.Message) {
-						r := m.(*pubsubpb.StreamingPullRequest)
-						r.ModifyDeadlineAckIds, r.ModifyDeadlineSeconds = []string{"zz"}, []int32{5}
-					}},
-					{"negative-seconds", func(m proto.Message) {
-						r := m.(*pubsubpb.StreamingPullRequest)
-						r.ModifyDeadlineAckIds, r.ModifyDeadlineSeconds = []string{env.foreignAck}, []int32{math.MinInt32}
-					}},
-				}},
+				{"acks", optionalAckAlts(env, func(m proto.Message, v []string) { m.(*pubsubpb.StreamingPullRequest).AckIds = v })},
+				// the stream's modify-deadline carries the same id and seconds domains as the
+				// unary ModifyAckDeadline (it reaches the same action on another goroutine)
+				{"modack_ids", append(optionalAckAlts(env, func(m proto.Message, v []string) {
+					r := m.(*pubsubpb.StreamingPullRequest)
+					r.ModifyDeadlineAckIds = v
+					r.ModifyDeadlineSeconds = make([]int32, len(v))
+					for i := range r.ModifyDeadlineSeconds {
+						r.ModifyDeadlineSeconds[i] = 10
+					}
+				}), alt{"len-mismatch", func(m proto.Message) {
+					r := m.(*pubsubpb.StreamingPullRequest)
+					r.ModifyDeadlineAckIds, r.ModifyDeadlineSeconds = []string{env.liveAck}, nil
+				}})},
+				{"modack_secs", int32Alts(10, func(m proto.Message, v int32) {
+					r := m.(*pubsubpb.StreamingPullRequest)
+					for i := range r.ModifyDeadlineSeconds {
+						r.ModifyDeadlineSeconds[i] = v
+					}
+				})},
 				{"deadline", int32Alts(10, func(m proto.Message, v int32) { m.(*pubsubpb.StreamingPullRequest).StreamAckDeadlineSeconds = v })[:4]},
 			},
 			invoke: func(ctx context.Context, s *c16Srv, m proto.Message) error {
@@ -776,6 +793,12 @@ func c16Specs(env *c16Env) []rpcSpec {
 				if err := st.Send(m.(*pubsubpb.StreamingPullRequest)); err != nil {
 					return err
 				}
+				// let the stream's reader and sender goroutines act on the request, then
+				// end the stream with a follow-up the server must reject: requests are
+				// processed in order, so the status arrives only after the request under
+				// test has been applied (and the call does not have to run into its deadline)
+				time.Sleep(c16StreamSettle)
+				_ = st.Send(&pubsubpb.StreamingPullRequest{ModifyDeadlineAckIds: []string{env.liveAck}})
 				for {
 					if _, err := st.Recv(); err != nil {
 						return err
@@ -784,6 +807,10 @@ func c16Specs(env *c16Env) []rpcSpec {
 			}},
 	}
 }
+
+// c16StreamSettle: how long a StreamingPull is left open before the terminating
+// follow-up is sent (set per tier).
+var c16StreamSettle = 30 * time.Millisecond
 
 func listFields(get func(m proto.Message) (project *string, pageSize *int32, token *string)) []field {
 	return []field{
@@ -839,6 +866,9 @@ func runC16(t *testing.T, tier string) int {
 		return c16Server()
 	}
 	t0 := time.Now()
+	if tier == "thorough" {
+		c16StreamSettle = 150 * time.Millisecond
+	}
 	sink := &violSink{}
 	env := &c16Env{}
 	specs := c16Specs(env)
@@ -897,18 +927,16 @@ func runC16(t *testing.T, tier string) int {
 				}
 			}
 			desc := sp.name + "{" + strings.Join(labels, ",") + "}"
-			if (sp.name == "Pull" || sp.name == "StreamingPull") && slow >= deadlineBudget {
-				// skip variants known to block (valid subscription) once the budget is used
-				if sp.name == "StreamingPull" {
-					continue
-				}
-			}
+			_ = deadlineBudget
 			// only calls that block by design get the short deadline; for everything
 			// else a client-side timeout under load could race with a server-side
 			// commit and look like "error but state changed"
 			dl := 15 * time.Second
-			if sp.name == "Pull" || sp.name == "StreamingPull" {
+			if sp.name == "Pull" {
 				dl = 300 * time.Millisecond
+			}
+			if sp.name == "StreamingPull" {
+				dl = 3 * time.Second // ended by the client's terminating follow-up long before
 			}
 			ctx, cancel := context.WithTimeout(context.Background(), dl)
 			start := time.Now()
